@@ -92,6 +92,7 @@ class Ctx:
         self._lock = threading.Lock()
         self.t0 = time.time()
         self.first_violation_at = None
+        self.known_mechanisms = {f["mechanism"] for f in load_known() if f.get("property") == prop and f.get("status") == "known"}
 
     @property
     def quick(self):
@@ -135,7 +136,9 @@ class Ctx:
             self.vcount[mechanism] = self.vcount.get(mechanism, 0) + 1
             if self.vcount[mechanism] <= MAX_WITNESS_PER_MECH:
                 self.violations.append({"mechanism": mechanism, "witness": jsonable(witness)})
-            total = sum(self.vcount.values())
+            total = sum(n for m, n in self.vcount.items() if m not in self.known_mechanisms)
+            if mechanism in self.known_mechanisms:
+                return
             if self.first_violation_at is None:
                 self.first_violation_at = time.time()
             slow = time.time() - self.first_violation_at > 45
